@@ -6,6 +6,8 @@ dir=/verif/seeded/$tag; [ -f $dir/patch.diff ] || dir=/tmp/seeded/$tag
 cd /repo || exit 2
 if ! git diff --quiet; then echo "repo dirty, abort"; exit 2; fi
 git apply $dir/patch.diff || { echo "patch does not apply"; exit 2; }
+# evidence written while a seeded change is applied must never be kept
+rm -rf /verif/target/evidence.keep; cp -r /verif/evidence /verif/target/evidence.keep
 first=1
 for p in $props; do
   if [ $first = 1 ]; then out=$(/verif/check $p --tier $tier 2>&1); rc=$?; first=0; else out=$(/verif/check $p --tier $tier --no-build 2>&1); rc=$?; fi
@@ -15,5 +17,6 @@ for p in $props; do
   mkdir -p /verif/logs/seeded; echo "$out" > /verif/logs/seeded/$tag-$p.log
 done
 git checkout -- . ; git status --short | head -3
+rm -rf /verif/evidence; mv /verif/target/evidence.keep /verif/evidence
 # restore the harness binary for the unchanged tree
 cd /verif/harness && cargo build --release 2>&1 | grep -E "^error" | head -3
